@@ -69,6 +69,14 @@ int64_t gcdExt(
   }
 }
 
+#ifdef DISCOPT_CMR_VERIF
+/* verif hook: exposes the static function gcdExt to the verification harness. */
+int64_t CMRverifGcdExt(int64_t a, int64_t b, int64_t* ps, int64_t* pt)
+{
+  return gcdExt(a, b, ps, pt);
+}
+#endif /* DISCOPT_CMR_VERIF */
+
 typedef struct _RowInfo64
 {
   size_t row;
